@@ -26,6 +26,18 @@ ALLOWED = 4_000_000_000
 REMEASURE = 4                 # extra runs of a task whose peak exceeded the projection (min is kept)
 
 
+def pin_zarr():
+    """Make the measurement independent of zarr's internal concurrency: one chunk in flight in the codec pipeline, one
+    codec thread.  (With the defaults — 10 concurrent chunks, a thread pool — the number of encoded/decoded buffers alive
+    at the same time depends on scheduling; the pinned run is a lower bound of what a default run holds.)"""
+    try:
+        import zarr
+        zarr.config.set({"async.concurrency": 1, "threading.max_workers": 1})
+        return True
+    except Exception:
+        return False
+
+
 def _use_repo():
     repo = os.path.abspath(os.environ.get("VERIF_REPO", "/repo"))
     if repo not in sys.path:
@@ -455,6 +467,7 @@ def run_case(case):
     import time
     t0 = time.time()
     try:
+        pin_zarr()
         import cubed
         results, spec, tmp, shape, chunks = build(case)
         t1 = time.time()
